@@ -489,6 +489,11 @@ impl Ctx {
         self.assumptions.push(s.to_string());
     }
 
+    /// Record a problem of the harness itself (exit code 2 unless a violation is also reported).
+    pub fn harness_error(&mut self, s: String) {
+        self.harness_errors.push(s);
+    }
+
     fn replay_dir(&self) -> PathBuf {
         root().join("replays").join(&self.id)
     }
